@@ -51,7 +51,7 @@ def gen_case(rng, tier, params=None):
         src = proggen.gen_program(rng.fork("prog"), size=cfg.randint(3, 14 if quick else 25))
         wl = {"kind": fam, "source": src}
     else:
-        style = cfg.weighted([("frontend", 5), ("generator", 2), ("bytecode", 2)])
+        style = cfg.weighted([("frontend", 5), ("generator", 2), ("bytecode", 2), ("zeropad", 0.7)])
         desc = graphgen.gen_graph(rng.fork("graph"), fam, n, style)
         wl = {"kind": "graph", "family": fam, "blocks": desc}
     return {"engine": "cosim", "workload": wl,
